@@ -700,18 +700,46 @@ inductive ParseErr
   | outOfFuel
 deriving DecidableEq, Repr, Inhabited
 
-/-- parser state: the current token and the unread input -/
+/-! ### Token stream
+
+  Inside F0 the lexer needs no feedback from the parser (there are no lexer modes), so `p.next()`
+  is modelled in two layers: `lexAll` runs `nextTok` to the end of the input, and the parser walks
+  the token list.  The only state `next()` carries from one token to the next is "the previous
+  token was a newline" (newline tokens are merged). -/
+
+abbrev TokPos := Tok × Pos
+
+/-- all tokens of the input, ending in `eof` (or in the first `outside` / `unclosedQuote`) -/
+def lexAllF : Nat → Bool → Bytes → Pos → List TokPos
+  | 0, _, _, _ => []
+  | fuel + 1, skipNl, src, spos =>
+    let l := nextTok skipNl src spos
+    match l.tok with
+    | .eof => [(.eof, l.pos)]
+    | .outside => [(.outside, l.pos)]
+    | .unclosedQuote => [(.unclosedQuote, l.pos)]
+    | t => (t, l.pos) :: lexAllF fuel (t == .newl) l.rest l.rpos
+
+/-- every token consumes at least one byte, so `|src| + 1` steps reach the end (`lexAll_fuel`) -/
+def lexAll (src : Bytes) : List TokPos := lexAllF (src.length + 1) false src ⟨0, 1, 1⟩
+
+/-- parser state: the unread tokens; the current token `p.tok` is the head -/
 structure PS where
-  tok : Tok
-  pos : Pos
-  rest : Bytes
-  rpos : Pos
+  toks : List TokPos
 deriving Repr, Inhabited
 
-def PS.ofLexed (l : Lexed) : PS := ⟨l.tok, l.pos, l.rest, l.rpos⟩
+def PS.tok (ps : PS) : Tok :=
+  match ps.toks with
+  | [] => .eof
+  | (t, _) :: _ => t
+
+def PS.pos (ps : PS) : Pos :=
+  match ps.toks with
+  | [] => Pos.zero
+  | (_, p) :: _ => p
 
 /-- `p.next()` -/
-def PS.next (ps : PS) : PS := .ofLexed (nextTok (ps.tok == .newl) ps.rest ps.rpos)
+def PS.next (ps : PS) : PS := ⟨ps.toks.tail⟩
 
 /-- `p.got(_Newl)` -/
 def PS.gotNewl (ps : PS) : Bool × PS := if ps.tok == .newl then (true, ps.next) else (false, ps)
@@ -939,10 +967,9 @@ def pipeF : Nat → Bool → Bool → Stmt → PS → Except ParseErr (Stmt × P
     else .ok (s, ps)
 end
 
-/-- `Parser.Parse` with explicit fuel -/
-def parseFuel (fuel : Nat) (_l : Lang) (src : Bytes) : Except ParseErr File :=
-  let ps : PS := .ofLexed (nextTok false src ⟨0, 1, 1⟩)
-  match stmtsF fuel false false true ps [] with
+/-- `Parser.Parse` on a token list, with explicit fuel -/
+def parseToksF (fuel : Nat) (toks : List TokPos) : Except ParseErr File :=
+  match stmtsF fuel false false true ⟨toks⟩ [] with
   | .error e => .error e
   | .ok (ss, ps) =>
     match ps.tok with
@@ -950,8 +977,13 @@ def parseFuel (fuel : Nat) (_l : Lang) (src : Bytes) : Except ParseErr File :=
     | .outside => .error .outside
     | _ => .error (.syntax "unexpected token")
 
-/-- `Parser.Parse`.  The recursion consumes at least one input byte per level (theorem
-    `fuel_sufficient`), so `4 * |src| + 8` units of fuel are never used up. -/
-def parse (l : Lang) (src : Bytes) : Except ParseErr File := parseFuel (4 * src.length + 8) l src
+/-- fuel that is never used up: every level of the recursion consumes a token
+    (theorem `fuel_sufficient`) -/
+def parseFuelFor (toks : List TokPos) : Nat := 4 * toks.length + 8
+
+def parseToks (toks : List TokPos) : Except ParseErr File := parseToksF (parseFuelFor toks) toks
+
+/-- `Parser.Parse` -/
+def parse (_l : Lang) (src : Bytes) : Except ParseErr File := parseToks (lexAll src)
 
 end ShVerif.L4
